@@ -47,15 +47,23 @@ Proof. exact ndjson_indep. Qed.
 Print Assumptions C18_ndjson.
 
 (* what users run: the generated client reads the whole body before the helper iterates it ([read_all]); its items are
-   those of the streaming path on the same stream, so they are independent of the server's chunking *)
+   those of the streaming path on the same stream, so they are independent of the server's chunking.
+   text/event-stream operations: json.loads of iter_sse_events_text's items *)
 Theorem C18_e2e : forall py_int (J : Type) (json_loads : str -> option J) cs,
   e2e_events py_int J json_loads cs = loads_all J json_loads (iter_sse_events_text py_int cs).
 Proof. exact e2e_events_stream. Qed.
 Print Assumptions C18_e2e.
 
-Theorem C18_e2e_indep : forall py_int (J : Type) (json_loads : str -> option J) cs1 cs2, concat cs1 = concat cs2 ->
-  e2e_events py_int J json_loads cs1 = e2e_events py_int J json_loads cs2.
-Proof. exact e2e_events_indep. Qed.
+(* generated application/x-ndjson operations (since F05f): the items of iter_ndjson on the same stream *)
+Theorem C18_e2e_ndjson : forall (J : Type) (json_loads : str -> option J) cs,
+  e2e_ndjson J json_loads cs = iter_ndjson J json_loads cs.
+Proof. exact e2e_ndjson_stream. Qed.
+Print Assumptions C18_e2e_ndjson.
+
+(* whichever helper the generated operation calls (read off the generated code): independent of the server's chunking *)
+Theorem C18_e2e_indep : forall py_int (J : Type) (json_loads : str -> option J) h cs1 cs2, concat cs1 = concat cs2 ->
+  e2e_items py_int J json_loads h cs1 = e2e_items py_int J json_loads h cs2.
+Proof. exact e2e_items_indep. Qed.
 Print Assumptions C18_e2e_indep.
 
 Theorem C18_e2e_bytes : forall cs, e2e_bytes cs = match concat cs with [] => [] | b => [b] end.
